@@ -117,12 +117,20 @@ def stage(h):
                         s = s.replace('#[path = "/verif/kani/harness/', '#[path = "%s/harness/' % st)
                         open(fp, "w").write(s)
             open(os.path.join(st, ".ready"), "w").write(str(time.time()))
-        # garbage-collect older stages (keep the 3 newest)
+        # mark this stage as in use, then garbage-collect stages nobody used for an hour (keeping
+        # the 6 newest anyway): a stage - and its result cache - deleted while another process
+        # (a second `bin/matrix`, a `vp` run) was working in it made kani-driver die with ENOENT
+        try:
+            os.utime(st, None)
+        except OSError:
+            pass
+        now = time.time()
         olds = sorted(
             (d for d in os.listdir(SCRATCH) if d.startswith("src-") and d != "src-" + h),
             key=lambda d: os.path.getmtime(os.path.join(SCRATCH, d)),
         )
-        for d in olds[:-2]:
+        olds = [d for d in olds[:-5] if now - os.path.getmtime(os.path.join(SCRATCH, d)) > 3600]
+        for d in olds:
             shutil.rmtree(os.path.join(SCRATCH, d), ignore_errors=True)
             shutil.rmtree(os.path.join(SCRATCH, "cache", d[4:]), ignore_errors=True)
     finally:
